@@ -22,3 +22,15 @@ type Y3 struct{ V uint64 }
 
 func MkY3(x uint64) Y3 { return Y3{V: x} }
 func UnY3(v Y3) uint64 { return v.V }
+
+// X0 and X1 have namesakes in package cffverif/rt/other (which has the same
+// package name, too).
+type X0 struct{ W uint64 }
+
+func MkX0(x uint64) X0 { return X0{W: x} }
+func UnX0(v X0) uint64 { return v.W }
+
+type X1 struct{ W uint64 }
+
+func MkX1(x uint64) X1 { return X1{W: x} }
+func UnX1(v X1) uint64 { return v.W }
